@@ -3,7 +3,9 @@ Model of `internal/fetcher/fetcher.go` (property C24), with the repair of
 `/verif/fixes/C24-fetcher-dup-txid-and-empty-key.patch` (blocked lists hold tx *records*, not
 tx ids) and of `state.Keys.WithoutPermissions` (`state/keys.go`). Core Lean only.
 
-Atomic steps: the lock-protected part of `Fetch` together with its channel sends, a worker
+Atomic steps: the lock-protected part of `Fetch` (`fetch`), each of its channel sends
+`select { f.tasks <- t | <-f.stop }` on the bounded task channel (`send`, or `abort` when `stop`
+is closed: `Fetch` returns `f.err` with its record already registered), a worker
 receiving a task and calling `im.GetValue` (`take`), the return of `GetValue` followed by
 `set` / `handleErr` (`complete`), a worker leaving its loop (`exit`), `Stop`, `Wait`
 (`close(tasks)`; returns when all workers left), `Get`.
@@ -52,6 +54,11 @@ structure St where
   err : Option FErr
   /-- `setErr` (sync.Once) already used -/
   once : Bool
+  /-- tasks of the `Fetch` call in progress that are not yet sent (`Fetch` is called by one
+  goroutine at a time, as `Processor.executeTxs` does; concurrent `Fetch` calls are not modelled) -/
+  sending : List Key
+  /-- capacity of the `tasks` channel (`make(chan *task, txs)`) -/
+  cap : Nat
   /-- buffered `tasks` channel -/
   queue : List Key
   /-- tasks received by a worker whose `GetValue` has not returned yet -/
@@ -67,9 +74,9 @@ structure St where
 def upd {α β} [DecidableEq α] (m : α → β) (k : α) (v : β) : α → β := fun j => if j = k then v else m j
 
 /-- `fetcher.New(im, txs, concurrency)` -/
-def init (concurrency : Nat) : St :=
+def init (concurrency : Nat) (cap : Nat := 1000000) : St :=
   { cache := fun _ => none, blocked := [], recs := fun _ => none, nrecs := 0, txs := fun _ => none,
-    err := none, once := false, queue := [], inflight := [], requested := [], workers := concurrency,
+    err := none, once := false, sending := [], cap := cap, queue := [], inflight := [], requested := [], workers := concurrency,
     tasksClosed := false, panicked := false }
 
 /-- record `r` learns key `k`; `inc`: the key is not cached yet (`blockers++`, a waiter will be made) -/
@@ -79,13 +86,13 @@ def bump (recs : Nat → Option Rec) (r : Nat) (k : Key) (inc : Bool) : Nat → 
               waiter := rc.waiter || inc })
 
 /-- one iteration of the `for _, k := range keys` loop of `Fetch` for the new record `r`.
-(The Go code keeps `blockers` in a local and fills the record after the loop, and sends the
-new tasks after unlocking; `Fetch` is one atomic step here, so the result is the same.) -/
+(The Go code keeps `blockers` in a local and fills the record after the loop, all under the
+lock, so the result is the same; the new tasks are collected in `sending` and sent afterwards.) -/
 def fetchKey (r : Nat) (s : St) (k : Key) : St :=
   match s.cache k with
   | none =>          -- `!ok`: new entry, new task
     { s with cache := upd s.cache k (some none), blocked := s.blocked ++ [(k, r)],
-             queue := s.queue ++ [k], recs := bump s.recs r k true }
+             sending := s.sending ++ [k], recs := bump s.recs r k true }
   | some (some _) => -- `d.cache != nil`
     { s with recs := bump s.recs r k false }
   | some none =>     -- being fetched: register
@@ -96,11 +103,24 @@ def newRec (s : St) : St :=
   { s with recs := upd s.recs s.nrecs (some { blockers := 0, waiter := false, closed := false, keys := [] }),
            nrecs := s.nrecs + 1 }
 
-/-- `Fetch(ctx, txID, keys)`; the Boolean is `err == nil` -/
+/-- `Fetch(ctx, txID, keys)`, the part under `f.l`; the Boolean is `false` when `f.err != nil`
+(`Fetch` returns the error at once). Otherwise the collected tasks are sent one by one. -/
 def fetch (s : St) (tx : TxId) (ks : List Key) : St × Bool :=
   if s.err.isSome then (s, false) else
   let s1 := ks.foldl (fetchKey s.nrecs) (newRec s)
   ({ s1 with txs := upd s1.txs tx (some s.nrecs) }, true)
+
+/-- `case f.tasks <- t`: the next task of the `Fetch` in progress enters the channel (room needed) -/
+def send (s : St) : Option St :=
+  match s.sending with
+  | [] => none
+  | k :: rest =>
+    if s.queue.length < s.cap then some { s with sending := rest, queue := s.queue ++ [k] } else none
+
+/-- `case <-f.stop: return f.err`: the `Fetch` in progress gives up; its remaining tasks are never
+sent (their keys keep an entry without cache), its record stays registered -/
+def abort (s : St) : Option St :=
+  if s.sending ≠ [] ∧ s.err.isSome then some { s with sending := [] } else none
 
 /-- `tx.blockers--; if tx.blockers == 0 { close(tx.waiter) }`; the Boolean reports a panic -/
 def decr (recs : Nat → Option Rec) (r : Nat) : (Nat → Option Rec) × Bool :=
@@ -192,19 +212,22 @@ def getOutcomes (s : St) (tx : TxId) : List GetRes :=
            (match s.err with | some e => [.err e] | none => [])
 
 /-- One atomic step of any goroutine. `Fetch` must not be called after `Wait` (documented
-invariant of the Go API; it would send on a closed channel). -/
+invariant of the Go API; it would send on a closed channel); `Wait` is called after the last
+`Fetch` returned. -/
 inductive Step (parent : Key → Rd) : St → St → Prop where
-  | fetch (s tx ks) : s.tasksClosed = false → Step parent s (fetch s tx ks).1
+  | fetch (s tx ks) : s.tasksClosed = false → s.sending = [] → Step parent s (fetch s tx ks).1
+  | send (s s') : send s = some s' → Step parent s s'
+  | abort (s s') : abort s = some s' → Step parent s s'
   | take (s s') : take s = some s' → Step parent s s'
   | complete (s k s') : complete parent s k = some s' → Step parent s s'
   | exit (s s') : exit s = some s' → Step parent s s'
   | stop (s) : Step parent s (stop s)
-  | waitCall (s) : Step parent s (waitCall s)
+  | waitCall (s) : s.sending = [] → Step parent s (waitCall s)
   | waitRet (s s' e) : waitRet s = some (s', e) → Step parent s s'
 
-inductive Reach (parent : Key → Rd) (c : Nat) : St → Prop where
-  | init : Reach parent c (init c)
-  | step (s s') : Reach parent c s → Step parent s s' → Reach parent c s'
+inductive Reach (parent : Key → Rd) (c : Nat) (cap : Nat := 1000000) : St → Prop where
+  | init : Reach parent c cap (init c cap)
+  | step (s s') : Reach parent c cap s → Step parent s s' → Reach parent c cap s'
 
 /-- `Keys.WithoutPermissions()` (repaired): the keys of the map, each once. Map iteration
 order is unspecified in Go; the model fixes insertion order of first occurrence. -/
